@@ -1390,7 +1390,29 @@ def c08_shapes(thorough):
   return S
 
 
+def c08_row_capture_cases():
+  """whole-row capture `P(..r)` (needs type inference on SQLite): raw program text, reference rules with the record written out; P under every plan"""
+  raws = [
+    ('P(shop: x) = y :- A(x, y);', 'T(r.shop, r.logica_value) :- P(..r);\nU(r) :- P(..r);',
+     [R('T', x, y, body=(Lit('A', x, y),)), R('U', ('rec', (('shop', x), ('logica_value', y))), body=(Lit('A', x, y),))], ['T', 'U']),
+    ('P(a: x, b: y, c: x + y) :- A(x, y);', 'T(r.c, r.a) :- P(..r), r.b > 1;\nU(r) :- P(..r);',
+     [R('T', Bin('+', x, y), x, body=(Lit('A', x, y), Cmp('>', y, N(1)))), R('U', ('rec', (('a', x), ('b', y), ('c', Bin('+', x, y)))), body=(Lit('A', x, y),))], ['T', 'U']),
+  ]
+  # two captures of the same 11-column rows, one through P (planned every way), one through the table-compiled Q: equal rows must be equal records
+  wide = ', '.join(['x', 'y'] * 5 + ['x + y'])
+  x2, y2 = V('x2'), V('y2')
+  raws.append(('P(%s) :- A(x, y);\nQ(%s) :- A(x, y);\n@NoInject(Q);' % (wide, wide), 'T(k, c? += 1) distinct :- P(..r), Q(..s), r == s, k == 1;',
+               [R('T', N(1), named={'c': Aggr('Sum', N(1))}, body=(Lit('A', x, y), Lit('A', x2, y2), Cmp('==', x, x2), Cmp('==', y, y2)), distinct=True)], ['T']))
+  for pdef, users, ref, preds in raws:
+    for ai, ann in enumerate(PLAN_ANNS):
+      stmts = ([Ann(ann.replace('%s', 'P'))] if ann else []) + [Ann(pdef), Ann(users)]
+      c = Case('PLAN/row_capture', Program(stmts, type_checking=True), preds, dbs=dbs_ab(2)[::3], fact_dbs=[], info=dict(shape='row_capture', assign=(ai,), depth=2))
+      c.prepared = ref
+      yield c
+
+
 def c08_cases(thorough):
+  for c in c08_row_capture_cases(): yield c
   dbs = dbs_ab(2)
   for name, spec in c08_shapes(thorough).items():
     rules, inter = spec[0], spec[1]
